@@ -40,9 +40,12 @@ def helpers():
 
 
 # families reached only (or also) through a rendering: (decoder, START word index, parameter index)
-VIA_TEXT = {'open': ('BSC_open', 1, 1), 'mode': ('BSC_chmod', 1, 1), 'access': ('BSC_access', 1, 1),
-            'msg': ('BSC_recvfrom', 3, 3), 'flock': ('BSC_sys_flock', 1, 1), 'chflags': ('BSC_fchflags', 1, 1),
-            'rtld': None}
+VIA_TEXT = {'open': [('BSC_open', 1, 1), ('BSC_openat', 2, 2), ('BSC_sem_open', 1, 1), ('BSC_shm_open', 1, 1)],
+            'mode': [('BSC_chmod', 1, 1), ('BSC_fchmod', 1, 1), ('BSC_mkdir', 1, 1), ('BSC_mkdirat', 2, 2), ('BSC_mkfifo', 1, 1),
+                     ('BSC_fchmodat', 2, 2)],
+            'access': [('BSC_access', 1, 1), ('BSC_faccessat', 2, 2)],
+            'msg': [('BSC_recvfrom', 3, 3), ('BSC_recvfrom_nocancel', 3, 3)], 'flock': [('BSC_sys_flock', 1, 1)],
+            'chflags': [('BSC_fchflags', 1, 1), ('BSC_chflags', 1, 1)]}
 # flag words that reach a family through an event rendering: (decoder, 'S'|'E' word source, word index, shift, prefix)
 VIA_EVENT = {'ast': [('MACH_SCHED', 'S', 0, 0), ('MACH_BLOCK', 'S', 0, 0), ('MACH_DISPATCH', 'S', 1, 0),
                      ('MACH_IDLE', 'E', 3, 0)],
@@ -98,14 +101,17 @@ def run(ctx):
                     o['shown'] = []
                     o['err'] = type(ex).__name__
                 obs.append(o)
-            via = VIA_TEXT.get(fam)
-            if via and (w < 4096 or rnd.random() < 0.2):
-                name, si, pi = via
+            vias = VIA_TEXT.get(fam)
+            if vias and (w < 4096 or rnd.random() < 0.2):
+                name, si, pi = vias[len(obs) % len(vias)]
                 S = [3, 4, 5, 6]
                 S[si] = w
-                o = {'id': '%s/%s/%x' % (fam, name, w), 'kind': 'flags', 'fam': fam, 'bits': bits, 'via': name}
+                # a third of the renderings come after other syscalls (umask, ...) of the same thread
+                prefix = pr.history(3) if len(obs) % 3 == 0 else ()
+                o = {'id': '%s/%s/%x%s' % (fam, name, w, '/after-history' if prefix else ''), 'kind': 'flags', 'fam': fam,
+                     'bits': bits, 'via': name + (' after %s' % [h[0] for h in prefix] if prefix else '')}
                 try:
-                    t = pr.render(name, S, [0, 1, 2, 3], [b'/p'])
+                    t = pr.render(name, S, [0, 1, 2, 3], [b'/p'], prefix=prefix)
                     o['shown'] = NAME_RE.findall(tokenize(t)[1][pi])
                 except Exception as ex:
                     o['shown'] = []
